@@ -585,6 +585,20 @@ def r6_tails(text, notes):
             notes.add('R6', '`%s%s..` lowered to %s(%s, <closure verbatim>)' % (recv, ' '.join(text[m.start():m.start()].split()), helper, recv))
             changed = True
             break
+    # `(A..B).map(C).collect::<Vec<_>>()` -> `vf_range_map(A, B, C)`
+    while True:
+        mask = mask_text(text)
+        m = re.search(r'\(\s*([A-Za-z0-9_]+)\s*\.\.\s*([A-Za-z0-9_]+)\s*\)\s*\.\s*map\s*\(', mask)
+        if not m:
+            break
+        par = m.end() - 1
+        close = match_close(mask, par)
+        mc = re.match(r'\s*\.\s*collect\s*::\s*<\s*Vec\s*<\s*_\s*>\s*>\s*\(\s*\)', mask[close + 1:])
+        if not mc:
+            break
+        c = text[par + 1:close].strip()
+        text = text[:m.start()] + 'vf_range_map(%s, %s, %s)' % (m.group(1), m.group(2), c) + text[close + 1 + mc.end():]
+        notes.add('R6', '`(%s..%s).map(..).collect::<Vec<_>>()` lowered to vf_range_map' % (m.group(1), m.group(2)))
     # `X.drain(..N);` / `X.drain(..=N);` (result unused) -> `vf_drain_to(&mut X, N);` / `vf_drain_to_incl(&mut X, N);`
     again = True
     while again:
